@@ -6,7 +6,7 @@
 //   I <count>                       the injector yields (injected count since the program began)
 //   B <prog> <randcount> <injstate> a program begins (the point a run can be restored at)
 //   X <prog> <result...>            a program ended with these results
-// usage: vrt repro --seed S --freq F --width W --progs a,b,c [--twice] [--restore <prog> <randcount> <injstate>] [--out FILE]
+// usage: vrt repro --seed S --freq F --width W [--sleep NS] --progs a,b,c [--twice] [--restore <prog> <randcount> <injstate>] [--out FILE]
 #include "common.hpp"
 
 #include <yaclib/async/contract.hpp>
@@ -228,7 +228,7 @@ void RunAll(const std::vector<std::string>& progs, const std::string& only) {
 }
 
 int ReproMain(int argc, char** argv) {
-  std::uint32_t seed = 1, freq = 4, width = 10;
+  std::uint32_t seed = 1, freq = 4, width = 10, sleep = 200;
   std::vector<std::string> progs{"pool"};
   bool twice = false;
   std::string restore_prog;
@@ -243,6 +243,8 @@ int ReproMain(int argc, char** argv) {
       freq = static_cast<std::uint32_t>(std::atol(argv[++i]));
     } else if (a == "--width") {
       width = static_cast<std::uint32_t>(std::atol(argv[++i]));
+    } else if (a == "--sleep") {
+      sleep = static_cast<std::uint32_t>(std::atol(argv[++i]));
     } else if (a == "--progs") {
       progs.clear();
       std::string cur;
@@ -273,7 +275,7 @@ int ReproMain(int argc, char** argv) {
   h.on_resume = &OnResume;
   h.on_inject = &OnInject;
   yaclib::SetFaultFrequency(freq);
-  yaclib::SetFaultSleepTime(200);
+  yaclib::SetFaultSleepTime(sleep);
   yaclib::fiber::SetFaultRandomListPick(width);
   yaclib::fiber::SetFaultTickLength(10);
   yaclib::fiber::SetStackSize(32);
